@@ -18,7 +18,7 @@ CLAIMS = {
     ),
     "C02": dict(
         engine="codec",
-        text="Lean 4 theorem `feedAll chunks = feed chunks.flatten` for every decoder state, every byte stream (valid or not) and EVERY partition into reads (run_append by well-founded induction), plus prefix-monotonicity (nothing surfaces early / twice) and whole-message delivery. Tie: real ZmqCodec fed chunk by chunk vs the model, exhaustively over all partitions of short streams, all 1- and 2-cuts of a medium stream, byte-at-a-time, random partitions of long streams; the Spec oracle compares the implementation's segmented and one-read runs directly. SOCKET level (world engine): the peer's first message cut at EVERY byte together with the end of its READY, the rest later, for all 8 socket types that read (PUB: the subscription takes effect) — the hand-over of the framed reader from the handshake to the socket.",
+        text="Lean 4 theorem `feedAll chunks = feed chunks.flatten` for every decoder state, every byte stream (valid or not) and EVERY partition into reads (run_append by well-founded induction), plus prefix-monotonicity (nothing surfaces early / twice) and whole-message delivery. Tie: real ZmqCodec fed chunk by chunk vs the model, exhaustively over all partitions of short streams, all 1- and 2-cuts of a medium stream, byte-at-a-time, random partitions of long streams; the Spec oracle compares the implementation's segmented and one-read runs directly. SOCKET level (world engine): the peer's first message cut at EVERY byte together with the end of its READY, the rest later, for all 8 socket types that read (PUB: the subscription takes effect) — the hand-over of the framed reader from the handshake to the socket. SOCKET LEVEL: two histories of one socket (any interleaving of polls, any segmentation of arriving bytes) in which a connection received the same bytes in total have the same delivered-so-far ++ complete-and-waiting list (C02_world_segmentation). Family socket-yieldy: a cooperative transport (short reads, forced yields in the middle of available data).",
         note=LEAN_NOTE + "asynchronous-codec FramedRead2 modelled as 'decode until None after every read'",
         technique="Lean 4 proof (incremental parser = batch parser) + differential correspondence over all partitions",
     ),
@@ -30,13 +30,13 @@ CLAIMS = {
     ),
     "C04": dict(
         engine="world",
-        text="Table clauses are PROOFS over tables regenerated from the real code on every run (decide): SocketType::compatible total, symmetric and equal to the RFC 28/29/30/31 relation on all 144 pairs; names and near-misses; mechanism field. Lean 4 theorems on the World model's handshake decision: admit <-> (Socket-Type present, known, RFC-compatible, Identity <= 255); admitted under the announced identity or a fresh one; registered exactly once; a rejected connection changes no socket and drops both halves. Tie: real handshake via attach over scripted pipes on the FULL compatibility plane 9x14, every single-factor deviation, pairwise sample (quick) / whole product ~1.1e5 (thorough); python RFC oracle. Socket-level theorems C04_world_handshake_*: the handshake future carries an invariant against the connection's byte stream; Ok(identity) only if the stream begins with an acceptable greeting and an admissible READY, for every segmentation and number of polls.",
+        text="Table clauses are PROOFS over tables regenerated from the real code on every run (decide): SocketType::compatible total, symmetric and equal to the RFC 28/29/30/31 relation on all 144 pairs; names and near-misses; mechanism field. Lean 4 theorems on the World model's handshake decision: admit <-> (Socket-Type present, known, RFC-compatible, Identity <= 255); admitted under the announced identity or a fresh one; registered exactly once; a rejected connection changes no socket and drops both halves. Tie: real handshake via attach over scripted pipes on the FULL compatibility plane 9x14, every single-factor deviation, pairwise sample (quick) / whole product ~1.1e5 (thorough); python RFC oracle. Socket-level theorems C04_world_handshake_*: the handshake future carries an invariant against the connection's byte stream; Ok(identity) only if the stream begins with an acceptable greeting and an admissible READY, for every segmentation and number of polls. SOCKET LEVEL, both directions against the connection's byte stream: Ok(identity) ONLY IF an acceptable greeting and an admissible READY head the stream (C04_world_handshake_* invariant, every segmentation and number of polls); and IF they do, on a connection that takes every write, ONE poll completes with Ok(ident) and the connection is in the peer table under ident (C04_world_handshake_completes); the poll that reads READY decides exactly as admitPeer says (C04_world_deciding_poll, _admitted_iff_admissible), the poll that reads the greeting rejects versions below 3.0 and non-greetings (C04_world_greeting_poll_rejects). Families accept-side (the accept side's only report is the monitor the socket has at that moment) and reconnect-abandoned (a second connection under a registered identity becomes a peer).",
         note=LEAN_NOTE + "UUIDv4 uniqueness for fresh identities; RFC table as typed in",
         technique="Lean 4 proof (decide over regenerated tables; iff on the admission decision) + exhaustive handshake-grid correspondence",
     ),
     "C05": dict(
         engine="fq",
-        text="Lean 4 invariants over the micro-step model of the fair queue (lock sections A/B/C, insert/remove/arrive/close landing anywhere, incl. inside the unlocked window), proved preserved by every step and hence true after ANY finite schedule with any number of peers: conservation (given = delivered ++ in-flight ++ still queued), per-peer prefix order, no duplicates, at most one stream checked out. Tie: the real FairQueue over scripted streams replays the SAME schedule as the model and must give the same result for every poll (exhaustive op sequences for 2/3 peers, every single window-action placement, seeded random); Spec oracle on the implementation's trace (prefix, no-dup, completeness after drain). Socket level: seeded random schedules of real PULL/SUB/DEALER/ROUTER/REP/XPUB sockets predicted line by line by the World model, and `streams` cases judged by the Spec itself (per peer, delivered = complete messages put on the wire; empty frames anywhere; clean and mid-message EOF). The budget op `exhaust` and the waker op `setwaker` (see C06) are part of the schedules. SOCKET-LEVEL THEOREMS (Lemmas/WorldRecv, WorldHist): one poll of the World model's framed reader / fair queue / recv loop is related to the connections' BYTE STREAMS (C02's run): the item handed out is the first item of exactly one connection's remaining stream, no other connection is touched, at most one message per poll and exactly one iff recv returns it (or REP rejects it); and for EVERY history of polls and arriving bytes the complete messages of a connection's whole byte stream are exactly the messages consumed from it, in order, followed by those still waiting (C05_world_exactly_once / _gone_prefix). Family reconnect-parked: a peer connects again under a still-registered identity while a recv is parked.",
+        text="Lean 4 invariants over the micro-step model of the fair queue (lock sections A/B/C, insert/remove/arrive/close landing anywhere, incl. inside the unlocked window), proved preserved by every step and hence true after ANY finite schedule with any number of peers: conservation (given = delivered ++ in-flight ++ still queued), per-peer prefix order, no duplicates, at most one stream checked out. Tie: the real FairQueue over scripted streams replays the SAME schedule as the model and must give the same result for every poll (exhaustive op sequences for 2/3 peers, every single window-action placement, seeded random); Spec oracle on the implementation's trace (prefix, no-dup, completeness after drain). Socket level: seeded random schedules of real PULL/SUB/DEALER/ROUTER/REP/XPUB sockets predicted line by line by the World model, and `streams` cases judged by the Spec itself (per peer, delivered = complete messages put on the wire; empty frames anywhere; clean and mid-message EOF). The budget op `exhaust` and the waker op `setwaker` (see C06) are part of the schedules. SOCKET-LEVEL THEOREMS (Lemmas/WorldRecv, WorldHist): one poll of the World model's framed reader / fair queue / recv loop is related to the connections' BYTE STREAMS (C02's run): the item handed out is the first item of exactly one connection's remaining stream, no other connection is touched, at most one message per poll and exactly one iff recv returns it (or REP rejects it); and for EVERY history of polls and arriving bytes the complete messages of a connection's whole byte stream are exactly the messages consumed from it, in order, followed by those still waiting (C05_world_exactly_once / _gone_prefix). Family reconnect-parked: a peer connects again under a still-registered identity while a recv is parked. Over every history also: what recv hands over for each consumed message (C05_world_verbatim; C07_world_rep_recv, C09_world_label, C11_world_xpub_verbatim for the types with an envelope rule), and the composition with the send theorems (C05_world_end_to_end: a connection that received encodeMsg m1 ++ encodeMsg m2 ++ ... delivers exactly m1, m2, ...).",
         note=LEAN_NOTE + "std BinaryHeap/HashMap, parking_lot::Mutex as atomic sections; true parallel data races not modelled; distinct keys",
         technique="Lean 4 proof (invariant by induction over all interleavings; refinement of the socket-level receive path to the connections' byte streams, for all histories) + exact-schedule differential correspondence",
     ),
@@ -72,7 +72,7 @@ CLAIMS = {
     ),
     "C10": dict(
         engine="world",
-        text="Lean 4: rotation laws on the pop-front/push-back queue (n consecutive sends over n peers hit each exactly once and restore the queue; distinct; permutation), and on the World model's send_round_robin: empty rotation -> world unchanged with the message handed back; a completed send touched only the chosen peer's pipe, left its buffer EMPTY (fully written) and pushed the peer back. Tie: real PUSH/DEALER/REQ with 0..5 scripted peers x join positions x 2n+1 sends, wires of every peer at the instant send returns Ready, partial-write and stall/resume credit scripts with the wire read while Pending; python oracle for one-peer/complete/rotation. Socket-level theorems C10_world_send_*: a send in progress hands the chosen connection the complete encoding exactly once over all its polls; no other write side is touched.",
+        text="Lean 4: rotation laws on the pop-front/push-back queue (n consecutive sends over n peers hit each exactly once and restore the queue; distinct; permutation), and on the World model's send_round_robin: empty rotation -> world unchanged with the message handed back; a completed send touched only the chosen peer's pipe, left its buffer EMPTY (fully written) and pushed the peer back. Tie: real PUSH/DEALER/REQ with 0..5 scripted peers x join positions x 2n+1 sends, wires of every peer at the instant send returns Ready, partial-write and stall/resume credit scripts with the wire read while Pending; python oracle for one-peer/complete/rotation. Socket-level theorems C10_world_send_*: a send in progress hands the chosen connection the complete encoding exactly once over all its polls; no other write side is touched. WHO is chosen, against the socket's rotation queue: the first entry that is still registered, the queue keeping what followed in order (C10_world_rr_choice), untouched while Pending and the chosen peer appended on completion (C10_world_rr_later_polls); with every entry registered one completed send is one rrNext step with the whole encoding on the HEAD's connection and on no other (C10_world_strict_rotation).",
         note=LEAN_NOTE + "crossbeam SegQueue as FIFO; cancelling a send mid-flush is outside the quantifier",
         technique="Lean 4 proof (rotation invariant, frame lemma, flushed-at-return) + differential correspondence with credit scripts",
     ),
@@ -90,7 +90,7 @@ CLAIMS = {
     ),
     "C13": dict(
         engine="world",
-        text="Lean 4: for ALL histories of subscribe/unsubscribe/atomic join, every peer's wire folded with the publisher's semantics (C11) equals the socket's set (invariant by induction); failure isolation (each peer's update is independent); the SPLIT join is modelled too and the full property is proved FALSE on a concrete history (C13_race_witness) with the partial theorem excluding exactly that window — a recorded known finding (D10). Tie: real SUB with scripted publishers, all histories to length 4/5 x join at every position, failing peer first, failing join, the split join reached deterministically by stalling the new pipe; python oracle folds every peer's wire. Back-pressure family: every history of length <= 3 x every call x each of two peers accepting only 0..2 bytes during that call — the call waits, the peer becomes writable, the call completes, and every peer (the slow one included) and a late joiner have been told. Family abandoned-join: a join abandoned while the new peer is being told the subscriptions leaves nothing behind.",
+        text="Lean 4: for ALL histories of subscribe/unsubscribe/atomic join, every peer's wire folded with the publisher's semantics (C11) equals the socket's set (invariant by induction); failure isolation (each peer's update is independent); the SPLIT join is modelled too and the full property is proved FALSE on a concrete history (C13_race_witness) with the partial theorem excluding exactly that window — a recorded known finding (D10). Tie: real SUB with scripted publishers, all histories to length 4/5 x join at every position, failing peer first, failing join, the split join reached deterministically by stalling the new pipe; python oracle folds every peer's wire. Back-pressure family: every history of length <= 3 x every call x each of two peers accepting only 0..2 bytes during that call — the call waits, the peer becomes writable, the call completes, and every peer (the slow one included) and a late joiner have been told. Family abandoned-join: a join abandoned while the new peer is being told the subscriptions leaves nothing behind. SOCKET LEVEL: the walk of subscribe/unsubscribe seen from one peer (C13_world_subop_*), every poll of the late joiner's re-announcement stage (C13_world_late_joiner: Pending keeps the books; completion registers the joiner only after one announcement per topic of the snapshot, in order, each whole, each once — or drops it unregistered), and end to end on a connection that takes every write: one poll, registered, greeting + READY + one announcement per subscription on its wire (C13_world_joiner_told_all). Families transient-announce, same-identity-joiner, bad-frame-then-subscribe, abandoned-join.",
         note=LEAN_NOTE + "HashSet/HashMap iteration orders abstracted (compared as multisets / at quiescent points)",
         technique="Lean 4 proof (invariant over histories; negation witness for the join race) + exhaustive history x join-point correspondence",
     ),
